@@ -10,13 +10,13 @@ saved instruction pointer.
 
 Layer 2: the REPL state machine (`Repl`, the code as it is) against the Spec (`SpecSt`),
 for ALL histories of pieces.  `C18_full` is the property as stated; it is still false on the
-code (two proved counterexamples — functions keep the globals copy of the run that loaded them, a
-failed piece has declared its names — each replayed on the real code by the harness);
-`C18_partial` proves it for every history inside the decidable `guard` (G3, G4).  Three further
-defects were REPAIRED in /repo (rejected piece's code ran later, compiler stuck in a function, one
-stack slot per piece): their guards G1 and G2 are gone from `C18_partial`, the general theorems
-`rejected_piece_has_no_effect` and `leftover_stack_invisible` hold without any guard, and the old
-counterexamples are the historical statements `C18_fixed_*` about the pre-fix machine `PreFix.Repl`.
+code (one proved counterexample — a failed piece has declared its names — replayed on the real code
+by the harness); `C18_partial` proves it for every history inside the decidable `guard` (G4).  Four
+further defects were REPAIRED in /repo (rejected piece's code ran later, compiler stuck in a function,
+one stack slot per piece, functions kept the globals copy of the run that loaded them): their guards
+G1, G2 and G3 are gone from `C18_partial`, the general theorems `rejected_piece_has_no_effect`,
+`leftover_stack_invisible` and `no_stale_view` hold without any guard, and the old counterexamples are
+the historical statements `C18_fixed_*` about the pre-fix machines (`PreFix.Repl`, `Repl.feedSnapshot`).
 -/
 namespace Risor.C18
 
@@ -169,14 +169,15 @@ def C18_full : Prop := ∀ h : List Piece, implObs h = specObs h
 
 /-- **C18_partial.**  For EVERY history of pieces (any number of pieces, any statements, with
     rejected and failing pieces anywhere — rejected at any statement, after any amount of emitted
-    code and declarations, inside function bodies or not) that satisfies the decidable `guard` —
-    G3 no statement calls a global-sensitive function loaded by an earlier run; G4 a failing piece
-    declares nothing from its failing statement on (the two recorded defects); and no accepted piece is
-    empty — the REPL machine yields exactly the Spec's per-piece outcomes (same value identities,
+    code and declarations, inside function bodies or not; calling functions that earlier pieces
+    declared, whatever globals those read and write and whatever was assigned in between) that
+    satisfies the decidable `guard` — G4 a failing piece declares nothing from its failing statement
+    on (the one recorded defect); and no accepted piece is empty — the REPL machine yields exactly the Spec's per-piece outcomes (same value identities,
     same rejections and failures), the same trace of executed statements (hence the same globals,
     values and output) and the same definitions for later pieces.  The former guards G1 (a rejected
-    piece is rejected at its first statement, before code was emitted, outside a function body) and G2
-    (`PieceCountBelowCapacity`) are gone with the repairs of the code. -/
+    piece is rejected at its first statement, before code was emitted, outside a function body), G2
+    (`PieceCountBelowCapacity`) and G3 (`NoStaleFunctionView`: no statement calls a global-sensitive
+    function loaded by an earlier run) are gone with the repairs of the code. -/
 theorem C18_partial (h : List Piece) (hg : guard h = true) : implObs h = specObs h := by
   have inv0 : Inv {} {} {} := ⟨rfl, rfl, rfl, rfl, rfl, rfl, rfl⟩
   obtain ⟨h1, inv⟩ := run_inv h {} {} {} inv0 hg
@@ -202,6 +203,47 @@ theorem rejected_iff (r : Repl) (l : List Stmt) :
     · simpa using hr
   · intro h
     rw [rejected_piece_has_no_effect r l h]
+
+/-- **No statement runs against a stale copy of the globals** — for EVERY state of the machine and
+    EVERY piece, whatever functions earlier runs loaded and whatever the piece calls: the trace entries
+    the piece's run adds are all unmarked (reloadCode forgot the loaded functions of the main code, so
+    every call wraps the function's code with the globals array of this run). -/
+theorem no_stale_view (r : Repl) (p : Piece) (e : Nat × Bool)
+    (he : e ∈ (r.feed p).1.vm.trace) : e ∈ r.vm.trace ∨ e.2 = false := by
+  have hx : ∀ (c : List AIns) (stk : List Nat) (tr : List (Nat × Bool)),
+      e ∈ (execFrom [] c stk tr).trace → e ∈ tr ∨ e.2 = false := by
+    intro c
+    induction c with
+    | nil => intro stk tr h; exact Or.inl h
+    | cons i rest ih =>
+      intro stk tr h
+      cases i with
+      | eff id need calls =>
+        simp only [execFrom] at h
+        rcases ih _ _ h with h1 | h1
+        · rcases List.mem_append.1 h1 with h2 | h2
+          · exact Or.inl h2
+          · right
+            simp only [List.mem_singleton] at h2
+            rw [h2]
+            simp
+        · exact Or.inr h1
+      | fail id leak =>
+        simp only [execFrom] at h
+        rcases List.mem_append.1 h with h2 | h2
+        · exact Or.inl h2
+        · right
+          simp only [List.mem_singleton] at h2
+          rw [h2]
+      | push v => exact ih _ _ h
+      | pop => exact ih _ _ h
+  cases p with
+  | bad => exact Or.inl he
+  | stmts l =>
+    simp only [Repl.feed] at he
+    split at he
+    · exact Or.inl he
+    · exact hx _ _ _ he
 
 /-- **What the previous run left on the operand stack is invisible** — for EVERY state and EVERY
     piece: replacing the stack by any other changes neither the outcome of the piece nor, when the
@@ -322,7 +364,7 @@ def specObsFrom (host : List Nat) (h : List Piece) : Obs :=
 /-- **C18_partial with host-supplied globals.**  For EVERY list `host` of names the embedding
     program supplies before the first piece (builtins, default modules — variables of the root
     symbol table) and EVERY history of pieces inside the guard evaluated with those names defined
-    (`guardHost`, the same conditions G3, G4 as `C18_partial`), the REPL machine started with
+    (`guardHost`, the same condition G4 as `C18_partial`), the REPL machine started with
     the host's names yields exactly the Spec's per-piece outcomes, trace of executed statements
     and definitions.  In particular a piece that REBINDS a host-supplied name (a statement whose
     `asg` contains it) is accepted, is part of the trace from then on, and every later piece runs
@@ -375,13 +417,15 @@ example : (implObsFrom [] w_host_rebind).outcomes = [.ok 0, .compileRejected, .c
 example : (implObsFrom [] [.stmts [{ id := 1, cdecl := [1] }], .stmts [{ id := 2, uses := [1], asg := [1] }]]).outcomes
     = [.ok 0, .compileRejected] := by decide
 /-- a function loaded by an earlier run that reads a host-supplied name rebound later sees the
-    stale copy (finding C18-function-globals-snapshot): outside the guard, marked in the trace -/
-example : guardHost [1]
+    rebinding (since the repair of C18-function-globals-snapshot): inside the guard, equal to the Spec -/
+def w_host_fn : List Piece :=
     [.stmts [{ id := 1, leaves := true, uses := [1], cdecl := [2], fdefs := [2] }],
      .stmts [{ id := 2, uses := [1], asg := [1] }],
-     .stmts [{ id := 3, isExpr := true, leaves := true, uses := [2], calls := [2] }]] = false := by decide
+     .stmts [{ id := 3, isExpr := true, leaves := true, uses := [2], calls := [2] }]]
+example : guardHost [1] w_host_fn = true := by decide
+example : implObsFrom [1] w_host_fn = specObsFrom [1] w_host_fn := C18_partial_host _ _ (by decide)
 
-/-! ### the code still violates the property: two witnesses (recorded findings) -/
+/-! ### the code still violates the property: one witness (recorded finding) -/
 
 /-- `x := 1; func f() { return x }` / `x = 5` / `f()` -/
 def w_stale : List Piece :=
@@ -389,13 +433,23 @@ def w_stale : List Piece :=
    .stmts [{ id := 3, uses := [1], asg := [1] }],
    .stmts [{ id := 4, isExpr := true, leaves := true, uses := [2], calls := [2] }]]
 
-/-- **Counterexample (functions keep the globals copy of the run that loaded them).**  `Run`
-    reloads the main code with a fresh copy of the globals; a function loaded by an earlier run
-    still reads and writes the old copy, so `f()` in the third piece does not see `x = 5`. -/
-theorem C18_counterexample_stale_function_globals : ¬ C18_full := fun h => by
-  have := h w_stale
-  revert this
-  decide
+def snapshotObs (h : List Piece) : Obs :=
+  let r := Repl.runSnapshot {} h
+  ⟨r.2, r.1.vm.trace, r.1.comp.syms⟩
+
+/-- **HISTORICAL (finding C18-function-globals-snapshot, repaired).**  Before reloadCode forgot the
+    loaded functions of the main code, `Run` reloaded the main code with a fresh copy of the globals
+    while a function loaded by an earlier run still read and wrote the old copy: `f()` in the third
+    piece of `w_stale` did not see `x = 5` (its trace entry carries the stale mark; the history was
+    outside the former guard G3, `preFixStaleCall`).  On the code as it is the history is inside the
+    guard and equals the Spec, and for every state and piece no entry is marked (`no_stale_view`). -/
+theorem C18_fixed_function_globals_snapshot :
+    snapshotObs w_stale ≠ specObs w_stale ∧ (snapshotObs w_stale).trace = [(1, false), (2, false), (3, false), (4, true)] ∧
+    preFixStaleCall (GSt.after {} (w_stale.take 2)) [{ id := 4, isExpr := true, leaves := true, uses := [2], calls := [2] }] = true ∧
+    preFixReloadKeeps [2] = [2] ∧ reloadKeeps [2] = [] ∧
+    guard w_stale = true ∧ implObs w_stale = specObs w_stale ∧
+    (implObs w_stale).trace = [(1, false), (2, false), (3, false), (4, false)] ∧
+    (implObs w_stale).outcomes = [.ok 0, .ok 0, .ok 4] := by decide
 
 /-- `x := 1 / 0` / `x` -/
 def w_failed_decl : List Piece :=
@@ -409,7 +463,7 @@ theorem C18_counterexample_failed_piece_declares : ¬ C18_full := fun h => by
   revert this
   decide
 
-/-! ### three defects were repaired: the old witnesses, on the pre-fix machine and on the code as it is -/
+/-! ### three earlier defects were repaired: the old witnesses, on the pre-fix machine and on the code as it is -/
 
 def preFixObs (h : List Piece) : Obs :=
   let r := PreFix.Repl.run {} h
@@ -474,16 +528,17 @@ theorem C18_fixed_stuck_compiler :
     (PreFix.Repl.run {} w_stuck).1.comp.stuck = true ∧
     guard w_stuck = true ∧ implObs w_stuck = specObs w_stuck ∧ (implObs w_stuck).trace.map (·.1) = [1, 3] := by decide
 
-/-! ### the guard names exactly the two recorded situations; it is satisfiable by rich histories -/
+/-! ### the guard names exactly the one recorded situation; it is satisfiable by rich histories -/
 
-example : guard w_stale = false ∧ guard w_failed_decl = false := by decide
-example : violatedGuards w_stale = ["stale-fn"] ∧ violatedGuards w_failed_decl = ["decl-after-failure"] ∧
+example : guard w_stale = true ∧ guard w_failed_decl = false := by decide
+example : violatedGuards w_stale = [] ∧ violatedGuards w_failed_decl = ["decl-after-failure"] ∧
     violatedGuards w_rejected = [] ∧ violatedGuards w_capacity = [] ∧ violatedGuards w_stuck = [] := by decide
 
 /-- a history inside the guard: definitions used by later pieces, a function defined and called
     in one piece, a parse error, an undefined name, a constant reassignment, a piece rejected at its
     second statement after a declaration and pending operands, a compile error inside a function body,
-    a failing piece between prints, and a use of an earlier definition afterwards -/
+    a failing piece between prints, a use of an earlier definition afterwards, and a call of the
+    function of the third piece after the global it reads was reassigned -/
 def w_inside : List Piece :=
   [.stmts [{ id := 1, cdecl := [1] }, { id := 2, vdecl := [2] }],
    .bad,
@@ -495,13 +550,16 @@ def w_inside : List Piece :=
    .stmts [{ id := 14, leaves := true, uses := [77], cdecl := [8], inFn := true }],
    .stmts [{ id := 7, isExpr := true, leaves := true }, { id := 8, isExpr := true, leaves := true, fails := true, leak := 1 },
            { id := 9, isExpr := true, leaves := true }],
-   .stmts [{ id := 10, uses := [2], asg := [2] }, { id := 11, isExpr := true, leaves := true, uses := [2] }]]
+   .stmts [{ id := 10, uses := [2], asg := [2] }, { id := 11, isExpr := true, leaves := true, uses := [2] }],
+   .stmts [{ id := 15, isExpr := true, leaves := true, uses := [3], calls := [3] }]]
 
 example : guard w_inside = true := by decide
 example : implObs w_inside = specObs w_inside := C18_partial _ (by decide)
 example : (implObs w_inside).outcomes =
-    [.ok 0, .parseRejected, .ok 4, .compileRejected, .compileRejected, .compileRejected, .compileRejected, .failed, .ok 11] := by decide
-example : (implObs w_inside).trace.map (·.1) = [1, 2, 3, 4, 7, 8, 10, 11] := by decide
+    [.ok 0, .parseRejected, .ok 4, .compileRejected, .compileRejected, .compileRejected, .compileRejected, .failed, .ok 11, .ok 15] := by decide
+example : (implObs w_inside).trace.map (·.1) = [1, 2, 3, 4, 7, 8, 10, 11, 15] := by decide
+/-- the last piece calls the function of the third piece after the global it reads was reassigned: not marked -/
+example : (implObs w_inside).trace.getLast? = some (15, false) := by decide
 /-- the names the two late-rejected pieces declared before their errors (9, 8) are not defined afterwards -/
 example : (implObs w_inside).syms.defined 9 = false ∧ (implObs w_inside).syms.defined 8 = false := by decide
 
@@ -588,7 +646,8 @@ def bindSpecVals (h : List (List TStmt)) : List (Option Int) := (bindSpec (fun _
     when all reads and writes go to one globals array (the concatenated program). -/
 def C18_binding_full : Prop := ∀ h : List (List TStmt), bindImplVals h = bindSpecVals h
 
-/-- **binding_partial.**  For EVERY history (any number of pieces; function declarations in any
+/-- **binding_partial** (the statement under the guard, as it was provable before the repair; the guard now
+    holds for every history: `bindGuard_always`, `C18_binding`).  For EVERY history (any number of pieces; function declarations in any
     piece; calls in any later piece; globals read, written and re-assigned by functions and by
     top-level code in any order; any integer values) in which every read — by top-level code
     through the current generation, by a function through the generation it was bound to when the
@@ -614,29 +673,77 @@ theorem binding_partial (h : List (List TStmt)) (hg : bindGuard h = true) :
   subst hc; subst hV
   exact ⟨e2, fun g hv => h2 g c.cur hv⟩
 
+/-- **Every history is inside the guard of `binding_partial`**: since reloadCode forgets the loaded
+    functions of the main code, every read — by top-level code and by every function, whichever piece
+    declared it — goes to the generation of the current run, which holds the up-to-date values. -/
+theorem bindGuard_always (h : List (List TStmt)) : bindGuard h = true :=
+  bindGuardFrom_isSome h {} (fun _ _ => true) (fun _ => rfl)
+
+/-- **C18_binding (the full statement, no guard).**  For EVERY history (any number of pieces; function
+    declarations in any piece; calls in any later piece; globals read, written and re-assigned by
+    functions and by top-level code in any order; any integer values) every piece yields exactly the
+    value the concatenated program yields, and after the history every global holds the whole program's
+    value. -/
+theorem C18_binding : C18_binding_full := fun h => (binding_partial h (bindGuard_always h)).1
+
+theorem C18_binding_globals (h : List (List TStmt)) (g : Nat) :
+    (bindRun {} (fun _ _ => 0) h).2.2 (bindRun {} (fun _ _ => 0) h).2.1.cur g
+      = (bindSpec (fun _ => none) (fun _ _ => 0) h).2.2 0 g := by
+  have hg := bindGuard_always h
+  have hp := binding_partial h hg
+  simp only [bindGuard, Option.isSome_iff_exists] at hg
+  obtain ⟨⟨c, V⟩, hcv⟩ := hg
+  obtain ⟨hc, hV⟩ := hp.2 c V hcv
+  have hall : ∀ (h : List (List TStmt)) (c0 : BCtl) (V0 : Valid) (c1 : BCtl) (V1 : Valid),
+      (∀ g, V0 g c0.cur = true) → bindGuardFrom c0 V0 h = some (c1, V1) → ∀ g, V1 g c1.cur = true := by
+    intro h
+    induction h with
+    | nil =>
+      intro c0 V0 c1 V1 h0 he
+      simp only [bindGuardFrom, Option.some.injEq, Prod.mk.injEq] at he
+      obtain ⟨e1, e2⟩ := he
+      subst e1; subst e2
+      exact h0
+    | cons l rest ih =>
+      intro c0 V0 c1 V1 h0 he
+      obtain ⟨V2, h2, hV2⟩ := okPiece_cur (c0.next l).env (next_allCur c0 l) l (reloadValid c0 V0) (reloadValid_cur c0 l V0 h0)
+      simp only [bindGuardFrom, h2] at he
+      exact ih _ _ _ _ hV2 he
+  rw [hc]
+  exact hV g (hall h {} _ c V (fun _ => rfl) hcv g)
+
 /-- **Binding time.**  After a piece has been fed, every function constant of the main code is
-    bound, and one that was not bound before is bound to the generation of THIS run — for every
-    control state and every piece. -/
-theorem bound_at_declaring_run (c : BCtl) (l : List TStmt) (f : Nat) (d : FnDef)
-    (hd : (c.next l).defs f = some d) (hb : c.bind f = none) : (c.next l).bind f = some (c.next l).cur := by
+    bound to the generation of THIS run — for every control state and every piece, whether the function
+    was loaded before or not. -/
+theorem bound_at_every_run (c : BCtl) (l : List TStmt) (f : Nat) (d : FnDef)
+    (hd : (c.next l).defs f = some d) : (c.next l).bind f = some (c.next l).cur := by
   simp only [BCtl.next] at hd ⊢
+  simp [hd]
+
+/-- HISTORICAL (before the repair): a function constant that was not bound before was bound to the generation
+    of the run that first saw it, and once bound it stayed bound to that generation -/
+theorem preFix_bound_at_declaring_run (c : BCtl) (l : List TStmt) (f : Nat) (d : FnDef)
+    (hd : (c.nextSnapshot l).defs f = some d) (hb : c.bind f = none) :
+    (c.nextSnapshot l).bind f = some (c.nextSnapshot l).cur := by
+  simp only [BCtl.nextSnapshot] at hd ⊢
   simp [hb, hd]
 
-/-- once bound, a function stays bound to the same generation -/
-theorem binding_is_stable (c : BCtl) (l : List TStmt) (f k : Nat) (hb : c.bind f = some k) :
-    (c.next l).bind f = some k := by
-  simp [BCtl.next, hb]
+theorem preFix_binding_was_stable (c : BCtl) (l : List TStmt) (f k : Nat) (hb : c.bind f = some k) :
+    (c.nextSnapshot l).bind f = some k := by
+  simp [BCtl.nextSnapshot, hb]
 
 /-- `x := 1; func f() { return x }` / `x = 5` / `f()` (globals: x = 0; functions: f = 0) -/
 def w_bind_stale : List (List TStmt) :=
   [[.set 0 (.lit 1), .defn 0 ⟨[], .glob 0⟩], [.set 0 (.lit 5)], [.expr (.call 0 (.lit 0))]]
 
-/-- **Counterexample (functions keep the generation they were bound to)**: `f()` yields 1, the
-    concatenated program 5 (finding C18-function-globals-snapshot). -/
-theorem C18_counterexample_binding : ¬ C18_binding_full := fun h => by
-  have := h w_bind_stale
-  revert this
-  decide
+/-- **HISTORICAL (finding C18-function-globals-snapshot, repaired): functions kept the generation they
+    were bound to.**  On the pre-fix control `f()` yielded 1, the concatenated program 5, and the history
+    was outside the guard; on the code as it is `f()` yields 5. -/
+theorem C18_fixed_binding_kept_generation :
+    (bindRunSnapshot {} (fun _ _ => 0) w_bind_stale).1 = [none, none, some 1] ∧
+    bindSpecVals w_bind_stale = [none, none, some 5] ∧
+    (bindGuardSnapshotFrom {} (fun _ _ => true) w_bind_stale).isSome = false ∧
+    bindImplVals w_bind_stale = [none, none, some 5] := by decide
 
 /-- `total := 0` / `func add(n) { total = total + n }; func report() { return total }` / `add(5)` /
     `add(7); report()`: declared together in a non-first piece, first called in different pieces -/
@@ -648,7 +755,7 @@ def w_bind_together : List (List TStmt) :=
 
 example : bindGuard w_bind_together = true := by decide
 example : bindImplVals w_bind_together = [none, none, some 5, some 12] := by decide
-example : bindGuard w_bind_stale = false := by decide
+example : bindGuard w_bind_stale = true := by decide
 
 /-! ## Layer 5: per-piece contexts and the halt flag -/
 
